@@ -240,7 +240,9 @@ def op_bad_derivation(rnd, variant=None):
                        "OpA * self::OpB", "fn x", "OpA % OpB", "(OpA * OpB)", "OpA, OpB", "\"OpA * OpB\"", "-OpA", "OpA * (OpB / OpC)",
                        "OpA / OpB / OpC", "crate::OpA / OpB", "OpA * no::such::module::OpB", "OpA::<u8> * OpB",
                       "OpA * OpB, OpC", "OpA * OpB, OpA / OpB", "OpA / OpB,", "OpA * OpB, 3, \"x\"", "OpA * OpB; OpC",
-                      "(OpA) * OpB", "OpA * (OpB)", "((OpA)) / (OpB)", "{OpA} * OpB", "OpA / [OpB]"], variant)
+                      "(OpA) * OpB", "OpA * (OpB)", "((OpA)) / (OpB)", "{OpA} * OpB", "OpA / [OpB]",
+                      "1 / OpB", "1 * OpB", "OpA / 1", "OpA * 1", "1.0 / OpB", "0x1 / OpB", "1u8 / OpB", "true / OpB", "'a' * OpB",
+                      "OpA / OpB as u8", "&OpA * OpB", "OpA * &OpB", "!OpA / OpB", "OpA.x * OpB", "OpA() * OpB", "OpA[0] * OpB", "OpA? * OpB"], variant)
     ctx = [defgen.emit_def(a), defgen.emit_def(b), defgen.emit_def(c)]
     return "derivation argument %r" % expr, ctx, emit(d, quantity_attr="#[quantity(%s)]" % expr)
 
@@ -268,7 +270,7 @@ OPERATORS = [op_no_unit, op_second_ref_unit, op_ref_unit_with_scale, op_missing_
 # number of enumerable sub-variants per operator (every one occurs once per batch)
 VARIANTS = {"op_no_unit": 3, "op_second_ref_unit": 5, "op_ref_unit_with_scale": 4, "op_missing_scale": 1,
             "op_scale_without_ref": 4, "op_prefix_without_ref": 3, "op_args": 21, "op_ref_args": 9, "op_fields": 4,
-            "op_generics": 5, "op_not_struct": 7, "op_bad_derivation": 29, "op_derived_no_ref": 6}
+            "op_generics": 5, "op_not_struct": 7, "op_bad_derivation": 46, "op_derived_no_ref": 6}
 
 
 def enumerated():
